@@ -197,3 +197,29 @@ ENTRIES += [
        "        average_return = self.average_return + done.astype(float) * alpha * (episode_return - self.average_return)")),
     V("C19-v-scan-where", "C19", (BEN, "return ~(env.terminal(env_state, key=key) | env.truncate(env_state))", "return ~env.terminal(env_state, key=key) & ~env.truncate(env_state)")),
 ]
+
+BA = "lerax/algorithm/base_algorithm.py"
+
+ENTRIES += [
+    # ---------------------------------------------------------------- C10
+    M("C10-numiter-plus", "C10", "C10.1", (ONP, "        return total_timesteps // (self.num_envs * self.num_steps)", "        return total_timesteps // (self.num_envs + self.num_steps)")),
+    M("C10-numiter-off", "C10", "C10.1", (OFP, "        return total_timesteps // (self.num_envs * self.num_steps)", "        return total_timesteps // self.num_steps")),
+    M("C10-count-plus2", "C10", "C10", (BA, "(self.iteration_count + 1, step_state, policy, opt_state)", "(self.iteration_count + 2, step_state, policy, opt_state)")),
+    M("C10-next-twice", "C10", "C10.2", (DQN, "        state = state.next(step_state, policy, opt_state)\n", "        state = state.next(step_state, policy, opt_state)\n        state = state.next(step_state, policy, opt_state)\n")),
+    M("C10-skip-per-iteration", "C10", "C10.2", (DQN, "        return self.per_iteration(state)\n\n    def train(", "        return state\n\n    def train(")),
+    M("C10-dqn-ne", "C10", "C10.4", (DQN, "should_update = state.iteration_count % self.target_update_interval == 0", "should_update = state.iteration_count % self.target_update_interval != 0")),
+    M("C10-dqn-branches", "C10", "C10.4", (DQN, "            lambda: state.policy,\n            lambda: state.target_policy,  # type: ignore[attr-defined]", "            lambda: state.target_policy,  # type: ignore[attr-defined]\n            lambda: state.policy,")),
+    M("C10-dqn-reset-target", "C10", "C10.4", (DQN, "            target_policy=policy,", "            target_policy=base_state.step_state.policy_state,")),
+    M("C10-polyak-swapped", "C10", "C10.5", (SAC, "lambda o, t: tau * o + (1 - tau) * t,", "lambda o, t: (1 - tau) * o + tau * t,")),
+    M("C10-polyak-crossed", "C10", "C10.5", (SAC, "new_qf2_target = polyak(state.qf2, state.qf2_target)", "new_qf2_target = polyak(state.qf1, state.qf2_target)")),
+    M("C10-polyak-writeback-swapped", "C10", "C10.5", (SAC, "        (new_qf1_target, new_qf2_target),\n    )", "        (new_qf2_target, new_qf1_target),\n    )")),
+    M("C10-actor-unconditional", "C10", "C10.6", (SAC, "policy, opt_state = filter_cond(should_update_actor, update_actor, skip_actor)", "policy, opt_state = update_actor()")),
+    M("C10-alpha-outside-autotune", "C10", "C10.6", (SAC, "        if self.autotune:\n\n            def compute_log_probs", "        if True:\n\n            def compute_log_probs")),
+    M("C10-gate-ne", "C10", "C10.6", (SAC, "should_update_actor = iteration_count % self.policy_frequency == 0", "should_update_actor = iteration_count % self.policy_frequency != 0")),
+    M("C10-sac-writeback-swap", "C10", "C10.6", (SAC, "            (qf1, qf2, q_opt_state, log_alpha, alpha_opt_state),\n        )", "            (qf2, qf1, q_opt_state, log_alpha, alpha_opt_state),\n        )")),
+    M("C10-sac-args-swap", "C10", "C10.6", (SAC, "            state.qf1_target,  # type: ignore[attr-defined]\n            state.qf2_target,  # type: ignore[attr-defined]", "            state.qf2_target,  # type: ignore[attr-defined]\n            state.qf1_target,  # type: ignore[attr-defined]")),
+    M("C10-learn-scan-len", "C10", "C10.1", (BA, "jr.split(learn_key, self.num_iterations(total_timesteps)),", "jr.split(learn_key, self.num_iterations(total_timesteps) + 1),")),
+    M("C10-train-stale-policy", "C10", "C10.2", (ONP, "        state = state.next(step_state, policy, opt_state)\n\n        state = state.with_callback_states(\n            callback.on_iteration(\n                IterationContext(", "        state = state.next(step_state, state.policy, opt_state)\n\n        state = state.with_callback_states(\n            callback.on_iteration(\n                IterationContext(")),
+    V("C10-v-numiter-commute", "C10", (ONP, "        return total_timesteps // (self.num_envs * self.num_steps)", "        per = self.num_steps * self.num_envs\n        return total_timesteps // per")),
+    V("C10-v-polyak", "C10", (SAC, "lambda o, t: tau * o + (1 - tau) * t,", "lambda o, t: t + tau * (o - t),")),
+]
